@@ -211,7 +211,7 @@ pub fn sweep_c04(tier: &str, seed: u64) -> (usize, Vec<String>) {
     let mut buf_g: StripedSequence<Dna, U32> = Default::default();
     let mut buf_a: StripedSequence<Dna, U32> = Default::default();
     let mut buf_d: StripedSequence<Dna, U32> = Default::default();
-    let mut lens2 = lens.clone(); lens2.extend_from_slice(&[0, 5, 0, 2050, 0, 33]);   // empty sequence into a reused, non-empty buffer
+    let mut lens2 = lens.clone(); lens2.extend_from_slice(&[0, 5, 0, 2050, 0, 33, 2050, 700, 3000, 100, 64, 33, 1]);   // empty sequence into a reused, non-empty buffer; then SHRINKING non-empty reuse (long, then shorter: rows that held symbols of the longer sequence become look-ahead rows of the shorter one)
     for rep in 0..reps { for &l in &lens2 {
         let l = if rep > 0 && rng.below(5) == 0 { 0 } else { l };
         let wild = rng.below(3) == 0;
